@@ -42,6 +42,8 @@ def run(rep: Report) -> None:
                         continue
                     n += 1
                     label = (f"{st} compact={compact}{' ideal-origin' if ideal else ''}"
+                             f"{' (second step and compilation, other T)' if (variant == 'merge' and compact == 2 and not ideal) else ''}"
+                             f"{' (delta, phi not given)' if (variant == 'merge' and compact == 1 and not ideal) else ''}"
                              f"{' parameters' if with_params else ''}{'' if variant == 'merge' else ' network=' + variant}")
                     net = CP.build_network(prog, st, vsl=False, variant=variant)
                     w = net.w
@@ -49,12 +51,26 @@ def run(rep: Report) -> None:
                         o = w.origin("O1", "Origin")
                         w.graph.node[net.nodes["N1"]][w.consts["ORIGINENTRY"]] = o
                         net.origins[0] = o
+                    use_delta = not (variant == "merge" and compact == 1 and not ideal)
                     try:
-                        CP.run_step(prog, net)
+                        CP.run_step(prog, net, delta=use_delta, phi=use_delta)
+                        if variant == "merge" and compact == 2 and not ideal:
+                            # a second step and a second compilation on the same engine object:
+                            # the flows must be those of the most recent step
+                            w.other_T = "T2"
+                            it2 = w.interp()
+                            fi2 = prog.function("sym_metanet.network", "Network.step")
+                            kw2 = dict(w.other_params(True, True))
+                            kw2["T"] = TV(E.S("T2"), 0, False, "parameter T")
+                            kw2["engine"] = w.EXPL
+                            first = CP.to_function(prog, net, compact=compact, more_out=True,
+                                                   other={"T": TV(E.S("T"), 0, False)})
+                            it2.call_function(CP.FuncV(fi2, w.net, defcls=CP.NET), [], kw2)
                     except Raised as e:
                         rep.refuted("flows", label, "Network.step", f"stepping raises {e.exc}: {e.msg}", key="step-raise")
                         continue
-                    other = {"T": TV(E.S("T"), 0, False)}
+                    Tname = "T2" if getattr(w, "other_T", None) == "T2" else "T"
+                    other = {"T": TV(E.S(Tname), 0, False)}
                     params = None
                     if with_params:
                         params = {"rho_crit": TV(E.S("p.rho_crit"), 1, False), "a": TV(E.S("p.a"), 1, False)}
@@ -96,7 +112,7 @@ def run(rep: Report) -> None:
                         k += len(fc)
                     rep.check(good, "link-flow-is-rho-v-lam", label, where, detail, key=f"linkflow|c={compact}")
                     # 2. origin flows vs queue update, 3. vs density balance of the fed link
-                    T = nz.rf(E.S("T"))
+                    T = nz.rf(E.S(Tname))
                     g = w.graph
                     K = w.consts
                     for i, o in enumerate(origins):
